@@ -27,7 +27,7 @@ PROP = dict(
               "sub-error-during-outage, the wait for the resubscription is made up after the outage), client restarts (label "
               "client-start-during-outage) and 2-24 further polls per sync step go on; label fin-pattern>=20-failed-polls) or a FLAKY cyclic pattern "
               "of answer kinds with at least one answer (label flaky-finalised-query); any LatestHeight call after the one of the catch-up scan is "
-              "answered by a drawn cyclic pattern of kinds; chain changes during the catch-up scan (reorg depth 1-4, 70 or 1000), chunk sizes 1-50 "
+              "answered by a drawn cyclic pattern of kinds; chain changes during the catch-up scan (reorg depth 1-4, 70 or 1000) and FINALITY ADVANCES during it (before the 1st-4th FilterStateUpdate call, to the next / last event block or the tip, once or twice; label midscan-finality-advance-between-chunks), chunk sizes 1-50 "
               "(64/100/256/1000/5000 when the tip is more than 40 chunks up, so a scan stays within ~40 queries), closing phase in which finality "
               "creeps to the tip block by block (event block by event block on a tall chain), restart via Run or CatchUpL1Head (same DB, same or "
               "fresh Blockchain). During an outage no model comparison is made (nothing is reported as finalised); the per-value invariants - "
